@@ -228,10 +228,54 @@ func runC10Enum(r *simkit.Run, c Cfg) {
 		append(append([]byte{}, enc[:1+cidFieldLen(enc)]...), 0x81, 0x5b, 0xff, 0xff, 0xff, 0xff, 0xff, 0xff, 0xff, 0xff),
 		append(append([]byte{}, enc[:1+cidFieldLen(enc)]...), 0x81, 0x5a, 0x7f, 0xff, 0xff, 0xff), // one address of 2 GiB
 		append(append([]byte{}, enc[:1+cidFieldLen(enc)]...), 0x99, 0x20, 0x00),                   // 8192 addresses, none present
+		append(append([]byte{}, enc[:1+cidFieldLen(enc)]...), 0x99, 0x20, 0x01),                   // 8193 addresses, none present
+		append(append([]byte{}, enc[:1+cidFieldLen(enc)]...), 0x9a, 0x00, 0x01, 0x00, 0x00),       // 65536 addresses, none present
+		append(append([]byte{}, enc[:1+cidFieldLen(enc)]...), 0x9a, 0x00, 0x20, 0x00, 0x00),       // 2 Mi addresses, none present
+		append(append([]byte{}, enc[:1+cidFieldLen(enc)]...), 0x9a, 0x7f, 0xff, 0xff, 0xff),       // 2 Gi addresses, none present
 		{}, {0xf6}, {0x80}, {0x85, 0, 0, 0, 0, 0},
 	} {
 		if _, err := decodeGuard(r, "a hostile header", h); err == nil && len(h) < 4 {
 			r.Violate("c10.hostile", "hostile input % x decoded without error", h)
+		}
+	}
+	// well-formed messages with very many (empty) addresses: whatever the
+	// decoder accepts, the encoder must accept too
+	if off := 1 + cidFieldLen(enc); len(m.Addrs) == 0 && off < len(enc) && enc[off] == 0x80 {
+		for _, n := range []int{23, 24, 255, 256, 4096, 8191, 8192, 8193, 8200, 16384, 65535, 65536, 70000} {
+			var b []byte
+			b = append(b, enc[:off]...)
+			switch {
+			case n < 24:
+				b = append(b, 0x80|byte(n))
+			case n < 256:
+				b = append(b, 0x98, byte(n))
+			case n < 65536:
+				b = append(b, 0x99, byte(n>>8), byte(n))
+			default:
+				b = append(b, 0x9a, byte(n>>24), byte(n>>16), byte(n>>8), byte(n))
+			}
+			for i := 0; i < n; i++ {
+				b = append(b, 0x40)
+			}
+			b = append(b, enc[off+1:]...)
+			got, err := decodeGuard(r, fmt.Sprintf("a well-formed message with %d empty addresses", n), b)
+			if err != nil {
+				r.Probe("many-addresses-rejected")
+				continue
+			}
+			r.Probe("many-addresses-decoded")
+			if len(got.Addrs) != n {
+				r.Violate("c10.roundtrip", "a message with %d addresses decoded to one with %d", n, len(got.Addrs))
+			}
+			var b2 bytes.Buffer
+			if err := got.MarshalCBOR(&b2); err != nil {
+				r.Violate("c10.reencode", "a message with %d addresses decodes but cannot be encoded again: %v", n, err)
+				continue
+			}
+			again, err := decodeGuard(r, "a re-encoded message", b2.Bytes())
+			if err != nil || !msgEqual(again, got) {
+				r.Violate("c10.reencode", "a message with %d addresses does not survive re-encoding (err=%v)", n, err)
+			}
 		}
 	}
 	r.NoteEnabled(2)
